@@ -313,6 +313,55 @@ fn run_cases_through_macro(ctx: &Ctx, envir: &Envir, cases: &[&Case]) {
     }
 }
 
+/// The same expressions as the value of an `.equ` (defined before the labels and later symbols it names
+/// have a value) and as the value of a `.set`, read back through `.dq name`: a symbol stands for the
+/// value of its expression, whenever and however the assembler chooses to evaluate it.
+fn run_cases_through_symbols(ctx: &Ctx, envir: &Envir, cases: &[&Case]) {
+    let usable: Vec<&&Case> = cases.iter().filter(|c| matches!(c.exp, Expected::Value(_)) && !c.text.to_lowercase().contains("pc") && !c.text.to_lowercase().contains("lbl_after")).collect();
+    for (kind, directive) in [("equ", ".equ"), ("set", ".set")] {
+        for chunk in usable.chunks(24) {
+            // .set is sequential: it can only name what is defined above it
+            let chunk: Vec<&&&Case> = chunk.iter().filter(|c| kind == "equ" || !c.text.to_lowercase().contains("eq_fwd")).collect();
+            if chunk.is_empty() {
+                continue;
+            }
+            let mut src = envir.prelude.clone();
+            for (i, c) in chunk.iter().enumerate() {
+                src.push_str(&format!("{} c05_named_{} = {}\n", directive, i, c.text));
+            }
+            for i in 0..chunk.len() {
+                src.push_str(&format!("\t.dq C05_Named_{}\n", i));
+            }
+            src.push_str(&envir.epilogue);
+            let out = fw::build_str(&src);
+            ctx.eval(chunk.len() as u64);
+            ctx.count(&format!("expressions_through_{}", kind), chunk.len() as u64);
+            let ok = match &out {
+                Outcome::Ok(b) => chunk.iter().enumerate().all(|(i, c)| qword_at(&b.code, envir, i).map(|v| c.exp.accepts_value(v)).unwrap_or(false)),
+                _ => false,
+            };
+            if !ok {
+                for c in &chunk {
+                    let src1 = format!("{}{} c05_named = {}\n\t.dq c05_named\n{}", envir.prelude, directive, c.text, envir.epilogue);
+                    let o = fw::build_str(&src1);
+                    let v = match &o {
+                        Outcome::Ok(b) => qword_at(&b.code, envir, 0),
+                        _ => None,
+                    };
+                    if !v.map(|v| c.exp.accepts_value(v)).unwrap_or(false) {
+                        let want = if let Expected::Value(v) = c.exp { Some(v) } else { None };
+                        ctx.violation(
+                            format!("expr/through-{}/{}/wrong-value", kind, c.e.root_name()),
+                            format!("`{} name = {}` read back through .dq: expected {:?}, observed {}", directive, fw::clip(&c.text, 100), c.exp, match (&o, v) { (Outcome::Ok(_), Some(v)) => format!("{}", v), (o, _) => o.kind().to_string() }),
+                            json!({"source": src1, "expression": c.text, "expected_value": want, "through_macro": kind, "qword_word_addr": envir.pc_base, "observed": o.brief()}),
+                        );
+                    }
+                }
+            }
+        }
+    }
+}
+
 /// The same expressions as conditions: `.if <expr>` assembles its branch iff the value is not zero,
 /// and an expression that must fail (division by zero, overflow, also in an operand that cannot change
 /// the value) fails the build there too. Only what is known while the file is read can stand in a
@@ -563,6 +612,7 @@ pub fn run(ctx: &Ctx) -> i32 {
     let pchunks: Vec<&[&Case]> = pair_refs.chunks(480).collect();
     fw::par_items(&pchunks, |_, cs| run_cases_through_macro(ctx, &envir, cs));
     fw::par_items(&pchunks, |_, cs| run_cases_as_conditions(ctx, &envir, cs));
+    fw::par_items(&pchunks, |_, cs| run_cases_through_symbols(ctx, &envir, cs));
     // random parts, generated per chunk on the worker threads
     let per = nrandom / chunks;
     let idx: Vec<u64> = (0..chunks as u64).collect();
@@ -584,6 +634,36 @@ pub fn run(ctx: &Ctx) -> i32 {
         // a quarter of the random trees also through a macro argument
         let some: Vec<&Case> = cs.iter().step_by(4).collect();
         run_cases_through_macro(ctx, &envir, &some);
+        // ... another quarter as the value of an .equ / .set, and as an .if condition
+        let other: Vec<&Case> = cs.iter().skip(1).step_by(4).collect();
+        run_cases_through_symbols(ctx, &envir, &other);
+        run_cases_as_conditions(ctx, &envir, &other);
+        // offsets from names that have no value yet when an .equ is read (labels, later symbols):
+        // name - a - b, name - a + b, a - name - b, ... in every sign combination
+        if *i == 0 {
+            let mut shaped: Vec<Case> = vec![];
+            for name in ["lbl_first", "Lbl_Second", "Eq_Fwd", "SetV", "EqA"] {
+                for (o1, o2) in [(Bin::Sub, Bin::Sub), (Bin::Sub, Bin::Add), (Bin::Add, Bin::Sub), (Bin::Add, Bin::Add), (Bin::Mul, Bin::Sub), (Bin::Sub, Bin::Mul), (Bin::Shl, Bin::Sub), (Bin::Sub, Bin::Shr), (Bin::Div, Bin::Mul), (Bin::Mul, Bin::Div), (Bin::Rem, Bin::Mul), (Bin::Sub, Bin::Rem)] {
+                    for (a, b) in [(2i64, 1i64), (7, 3), (1, 5)] {
+                        for shape in 0..3 {
+                            let e = match shape {
+                                0 => E::bin(o2, E::bin(o1, E::Sym(name.into()), E::lit(a)), E::lit(b)),
+                                1 => E::bin(o2, E::bin(o1, E::lit(a + 100), E::Sym(name.into())), E::lit(b)),
+                                _ => E::bin(o1, E::lit(a + 1000), E::Paren(Box::new(E::bin(o2, E::Sym(name.into()), E::lit(b))))),
+                            };
+                            if let Some(c) = mk(&envir, e, format!("offsets/{}{}", o1.text(), o2.text()), None) {
+                                shaped.push(c);
+                            }
+                        }
+                    }
+                }
+            }
+            run_cases(ctx, &envir, &shaped);
+            let refs: Vec<&Case> = shaped.iter().collect();
+            run_cases_through_symbols(ctx, &envir, &refs);
+            run_cases_through_macro(ctx, &envir, &refs);
+            ctx.count("offset_shapes", shaped.len() as u64);
+        }
     });
     ctx.put("environment", json!(envir.prelude.lines().collect::<Vec<_>>()));
     fw::finish(
